@@ -1507,6 +1507,13 @@ func (is *iterScanner) Next() bool {
 }
 
 func scanColumn(p []byte, col ColumnInfo, dest []interface{}) (int, error) {
+	if len(dest) == 0 {
+		// only a tuple without elements (which no server should describe) takes no destination
+		if tuple, ok := col.TypeInfo.(TupleTypeInfo); ok && len(tuple.Elems) == 0 {
+			return 0, nil
+		}
+		return 0, errors.New("gocql: not enough destinations to scan the row into")
+	}
 	if dest[0] == nil {
 		return 1, nil
 	}
